@@ -32,6 +32,9 @@ type mgrNode struct {
 	Health   string `json:"health,omitempty"`   // "" = what a health checker would write | missing | pingfail | fsro | crash | oldformat
 	Prio     int64  `json:"prio,omitempty"`
 	Cut      bool   `json:"cut,omitempty"` // the manager cannot reach this (running) server; its own mysync can
+	Offline  bool   `json:"offline,omitempty"`  // offline_mode = ON
+	ReadOnly bool   `json:"readonly,omitempty"` // the master is read-only
+	SS       string `json:"ss,omitempty"`       // the master's semi-sync side: "" = as configured | off (count as configured) | count2 (on, waits for 2) | off_count2
 }
 type mgrMaint struct {
 	Paused      bool `json:"paused"`
@@ -224,6 +227,19 @@ func mgrRun(in mgrIn) mgrOut {
 			n.RO, n.SuperRO = !(i == 0 || c.Writable), !(i == 0 || c.Writable)
 			if i == 0 {
 				n.SSMaster, n.WaitCount = in.Cfg.SemiSync, 1
+				switch c.SS {
+				case "off":
+					n.SSMaster = false
+				case "on":
+					n.SSMaster = true
+				case "count2":
+					n.SSMaster, n.WaitCount = true, 2
+				case "off_count2":
+					n.SSMaster, n.WaitCount = false, 2
+				}
+				if c.ReadOnly {
+					n.RO, n.SuperRO = true, true
+				}
 			}
 		} else {
 			n.RO, n.SuperRO = !c.Writable, !c.Writable
@@ -233,6 +249,7 @@ func mgrRun(in mgrIn) mgrOut {
 			lag := c.Lag
 			n.Lag = &lag
 		}
+		n.Offline = c.Offline
 		w.AddNode(n)
 		if c.Cut {
 			if w.Partition[mgr] == nil {
